@@ -26,10 +26,24 @@ def replay_e3(rec):
     else:
         sid = recipe.get("source_id")
         items = gen.g1_repo_examples() + gen.g2_templates(True) + gen.g3_boundaries(True)
+        pre = []
         for id_, src, mode in items:
             if id_ == sid:
                 code = compile(src, "<%s>" % id_, mode, flags=recipe.get("flags", 0), dont_inherit=True, optimize=recipe.get("optimize", 0))
+                if recipe.get("twin") is not None:      # history: the original is decoded first, in this process
+                    pre.append(code)
+                    if recipe["twin"] == 0:
+                        code = compile(src, "<other-file:%s>" % id_, mode, dont_inherit=True, optimize=0)
+                    else:
+                        code = compile(gen.twin_sources(src), "<%s>" % id_, mode, dont_inherit=True, optimize=0)
                 break
+        for c0 in pre:
+            from code_data import CodeData
+            for _, cc in gen.walk_code(c0):
+                try:
+                    CodeData.from_code(cc)
+                except Exception:
+                    pass
     if code is None:
         return {"violated": None, "note": "cannot rebuild input %r" % (recipe,)}
     for i in rec.get("path") or []:
